@@ -19,6 +19,11 @@ import (
 
 type hole struct {
 	extra []string // atoms in scope in this hole only (bound by the operator)
+	// hide: identifier that must not occur in this hole. jq function definitions
+	// are recursive (the name is in scope in its own body), so the body hole of
+	// `def NAME: ...` excludes NAME: the grammar generates no recursion and every
+	// program terminates.
+	hide string
 }
 
 type op struct {
@@ -29,16 +34,35 @@ type op struct {
 }
 
 func u(tmpl string, tier int, extra ...string) op {
-	return op{tmpl: tmpl, holes: []hole{{extra}}, cost: 1, tier: tier}
+	return op{tmpl: tmpl, holes: []hole{{extra: extra}}, cost: 1, tier: tier}
 }
 func b(tmpl string, tier int) op {
 	return op{tmpl: tmpl, holes: []hole{{}, {}}, cost: 1, tier: tier}
 }
 func bx(tmpl string, tier int, e0, e1 []string) op {
-	return op{tmpl: tmpl, holes: []hole{{e0}, {e1}}, cost: 1, tier: tier}
+	return op{tmpl: tmpl, holes: []hole{{extra: e0}, {extra: e1}}, cost: 1, tier: tier}
 }
 func t(tmpl string, tier int, e0, e1, e2 []string) op {
-	return op{tmpl: tmpl, holes: []hole{{e0}, {e1}, {e2}}, cost: 2, tier: tier}
+	return op{tmpl: tmpl, holes: []hole{{extra: e0}, {extra: e1}, {extra: e2}}, cost: 2, tier: tier}
+}
+
+// hid hides identifier name in the first hole (the definition body) of o.
+func hid(o op, name string) op {
+	o.holes = append([]hole{}, o.holes...)
+	o.holes[0].hide = name
+	return o
+}
+
+func mentions(s, ident string) bool {
+	for i := 0; i+len(ident) <= len(s); i++ {
+		if s[i:i+len(ident)] == ident && (i == 0 || !isIdentByte(s[i-1])) && (i+len(ident) == len(s) || !isIdentByte(s[i+len(ident)])) {
+			if i > 0 && (s[i-1] == '$' || s[i-1] == '.' || s[i-1] == '@') {
+				continue
+			}
+			return true
+		}
+	}
+	return false
 }
 
 var x = []string{"$x"}
@@ -76,13 +100,13 @@ func allOps() []op {
 		bx("%0 as {a:[$x],$c} | %1", 1, nil, []string{"$x", "$c"}),
 		bx("%0 as [$x] ?// $x | %1", 3, nil, x), bx("%0 as {a:$x} ?// [$x] | %1", 1, nil, x),
 		// function definitions: plain, closure parameter, value parameter
-		u("def f: %0; f", 3), bx("def f: %0; %1", 4, nil, []string{"f"}),
+		hid(u("def f: %0; f", 3), "f"), hid(bx("def f: %0; %1", 4, nil, []string{"f"}), "f"),
 		u("def f(g): g; f(%0)", 2), bx("def f(g): %0; f(%1)", 4, []string{"g"}, nil),
 		u("def f($a): $a; f(%0)", 2), bx("def f($a): %0; f(%1)", 3, []string{"$a"}, nil),
 		bx("def f(g; $a): %0; f(%1; 1)", 1, []string{"g", "$a"}, nil),
 		// shadowing a name fq's prelude also defines must keep standard scoping
-		bx("def split($a): %0; %1", 1, []string{"$a"}, []string{"split(\",\")"}),
-		bx("def explode: %0; %1", 1, nil, []string{"explode"}),
+		hid(bx("def split($a): %0; %1", 1, []string{"$a"}, []string{"split(\",\")"}), "split"),
+		hid(bx("def explode: %0; %1", 1, nil, []string{"explode"}), "explode"),
 		// label / break
 		u("label $l | %0", 4, "break $l"), bx("label $l | %0 | %1", 1, nil, []string{"break $l"}),
 		// string interpolation (plain; with every format below)
@@ -241,6 +265,9 @@ func (g *grammar) expand(o op, rest int, scope []string, emit func(string)) {
 			sc = mergeScope(scope, o.holes[i].extra)
 		}
 		for _, s := range g.list(sizes[i], sc) {
+			if h := o.holes[i].hide; h != "" && mentions(s, h) {
+				continue
+			}
 			subs[i] = s
 			fill(i + 1)
 		}
